@@ -224,9 +224,12 @@ def check_budget(ctx, sites):
 def check_nonfinite(ctx, S):
     R = "C14-GUARD"
     # a failing evaluation (non-finite / empty) must raise, and "no good samples" must raise
-    gname = S.gname or "good_samples_idx"
-    g = A.find_raising_guard(S.fn, A.nnf_of_src("len(%s) == 0" % gname))
-    ctx.check(R, g or S.fn, "%s: an empty accepted set raises" % S.name, g is not None, "no raise when len(%s) == 0" % gname, key=S.name + ":nogood")
+    g = None
+    if S.acc is not None:
+        cands = [A.unparse(S.acc_expr)] + ([S.gname] if S.gname else [])
+        for c in cands:
+            g = g or A.find_raising_guard(S.fn, A.nnf_of_src("len(%s) == 0" % c))
+    ctx.check(R, g or S.fn, "%s: an empty accepted set raises" % S.name, g is not None, "no raise when the accepted index is empty", key=S.name + ":nogood")
     loop = find_loop(S)
     if isinstance(loop, ast.For):
         okelse = bool(loop.orelse) and A.always_raises(loop.orelse)
